@@ -46,11 +46,54 @@ def mc_module(name, base, defs):
     return "---- MODULE %s ----\nEXTENDS %s\n%s\n====\n" % (name, base, body)
 
 
+def _corrupt(v):
+    if isinstance(v, bool):
+        return not v
+    if isinstance(v, int):
+        return v + 1
+    if isinstance(v, list):
+        if v and isinstance(v[0], int) and len(v) > 1:
+            return list(reversed(v)) if v != list(reversed(v)) else v[:-1]
+        return v[:-1] if v else None
+    return None
+
+
+_BINDING_SHOWN = set()
+
+
+def demonstrate_binding(ctx, module, events, constants, invariants, timeout, heap):
+    """Once per trace spec and run: corrupt the recorded result of one event in a short prefix of the real trace
+    and require that TLC flags exactly that event.  A trace spec that accepts the corrupted trace constrains
+    nothing and the check fails as a machinery failure."""
+    if module in _BINDING_SHOWN:
+        return
+    prefix = events[:60]
+    for idx in range(len(prefix) - 1, -1, -1):
+        e = prefix[idx]
+        if "res" in e and _corrupt(e["res"]) is not None:
+            bad = dict(e)
+            bad["res"] = _corrupt(e["res"])
+            mutated = prefix[:idx] + [bad] + prefix[idx + 1:]
+            _BINDING_SHOWN.add(module)
+            v = validate_trace(ctx, module, mutated, constants=constants, invariants=invariants, timeout=timeout,
+                               what="binding demonstration (one corrupted field)", ntraces=0, heap=heap, _demo=True)
+            flagged = {b["i"] for b in v["verdict"]}
+            clean = {b["i"] for b in validate_trace(ctx, module, prefix, constants=constants, invariants=invariants, timeout=timeout,
+                                                    what="binding demonstration (uncorrupted prefix)", ntraces=0, heap=heap, _demo=True)["verdict"]}
+            if idx + 1 not in flagged - clean:
+                raise tlc.MachineryFailure("%s accepted a trace whose event %d had its result corrupted (%s -> %s): the trace "
+                                           "spec does not constrain that field" % (module, idx + 1, e["res"], bad["res"]))
+            ctx.note("binding_demonstrated_" + module, "event %d op=%s with a corrupted result was rejected" % (idx + 1, e.get("op")))
+            return
+
+
 def validate_trace(ctx, module, events, constants=None, invariants=(), timeout=900, what="trace validation",
-                   ntraces=None, heap="3g"):
+                   ntraces=None, heap="3g", _demo=False):
     """Batch trace validation: events (list of dicts) -> Trace_<..> spec.  Returns the verdict record
     {verdict:[{i,clause}], drift:[..], n}.  One TLC step per event; all machine invariants listed are
     evaluated at every step."""
+    if not _demo and events:
+        demonstrate_binding(ctx, module, events, constants, invariants, timeout, heap)
     fd, path = tempfile.mkstemp(prefix="verif-trace-", suffix=".json")
     try:
         with os.fdopen(fd, "w") as fh:
